@@ -1,0 +1,121 @@
+/**
+ * Verification hooks (schedule points) for deterministic simulation.
+ *
+ * Everything in this header is inert unless FASTSCAPELIB_VERIF_HOOKS is
+ * defined at compile time AND a hook table has been installed at run time
+ * (fastscapelib::verif::table != nullptr). With the guard off the macros
+ * expand to nothing.
+ */
+#ifndef FASTSCAPELIB_UTILS_VERIF_HOOKS_HPP
+#define FASTSCAPELIB_UTILS_VERIF_HOOKS_HPP
+
+#ifdef FASTSCAPELIB_VERIF_HOOKS
+
+#include <cstddef>
+
+namespace fastscapelib
+{
+    namespace verif
+    {
+        /* kind of synchronisation step announced to the simulator */
+        enum hook_kind : int
+        {
+            k_point = 0,        /* plain schedule point */
+            k_load = 1,         /* before an atomic load */
+            k_store = 2,        /* before an atomic store */
+            k_rmw_done = 3,     /* after an atomic read-modify-write */
+            k_poll = 4,         /* one iteration of a busy-wait loop completed */
+            k_mutex_lock = 5,   /* before locking a mutex */
+            k_mutex_unlock = 6, /* after unlocking a mutex */
+            k_cv_wait = 7,      /* wait on a condition variable (mutex released by the caller) */
+            k_cv_notify_all = 8,
+            k_spawned = 9,      /* a thread has just been created (arg = worker index) */
+            k_thread_begin = 10,
+            k_thread_end = 11,
+            k_join = 12,        /* before joining worker arg */
+            k_job_begin = 13,
+            k_job_end = 14
+        };
+
+        /* where (only used for naming events and for busy-wait detection) */
+        enum hook_site : int
+        {
+            s_worker_loop = 0,
+            s_worker_loop_end = 1,
+            s_has_job = 2,
+            s_stopped = 3,
+            s_wait = 4,
+            s_pause_spin = 5,
+            s_paused_count = 6,
+            s_cv = 7,
+            s_cv_mutex = 8,
+            s_worker = 9,
+            s_resize = 10,
+            s_job = 11,
+            s_paused_flag = 12
+        };
+
+        struct hook_table
+        {
+            void (*sync)(int kind, int site, const void* obj, std::size_t arg);
+        };
+
+        inline const hook_table* table = nullptr;
+
+        inline void sync(int kind, int site, const void* obj, std::size_t arg)
+        {
+            if (table != nullptr)
+                table->sync(kind, site, obj, arg);
+        }
+
+        /* emits k_mutex_unlock when destroyed: declare it just before the lock object */
+        struct unlock_guard
+        {
+            const void* obj;
+            int site;
+            ~unlock_guard()
+            {
+                sync(k_mutex_unlock, site, obj, 0);
+            }
+        };
+
+        /*
+         * Modelled condition variable wait: returns false (caller must do the
+         * real wait) when no simulator is installed.
+         */
+        template <class L>
+        inline bool cv_wait(int site, const void* obj, L& lk)
+        {
+            if (table == nullptr)
+                return false;
+            lk.unlock();
+            table->sync(k_cv_wait, site, obj, 0);
+            lk.lock();
+            return true;
+        }
+    }
+}
+
+#define FASTSCAPELIB_VERIF_SYNC(kind, site, obj, arg)                                              \
+    ::fastscapelib::verif::sync(::fastscapelib::verif::kind, ::fastscapelib::verif::site, obj, arg)
+#define FASTSCAPELIB_VERIF_UNLOCK_GUARD(name, site, obj)                                           \
+    ::fastscapelib::verif::unlock_guard name                                                       \
+    {                                                                                              \
+        obj, ::fastscapelib::verif::site                                                           \
+    }
+/* usage: FASTSCAPELIB_VERIF_CV_WAIT(site, obj, lk) original_wait_statement; */
+#define FASTSCAPELIB_VERIF_CV_WAIT(site, obj, lk)                                                  \
+    if (::fastscapelib::verif::cv_wait(::fastscapelib::verif::site, obj, lk))                      \
+    {                                                                                              \
+    }                                                                                              \
+    else
+
+#else
+
+#define FASTSCAPELIB_VERIF_SYNC(kind, site, obj, arg) ((void) 0)
+#define FASTSCAPELIB_VERIF_UNLOCK_GUARD(name, site, obj) ((void) 0)
+#define FASTSCAPELIB_VERIF_CV_WAIT(site, obj, lk)
+
+#endif  // FASTSCAPELIB_VERIF_HOOKS
+
+#endif  // FASTSCAPELIB_UTILS_VERIF_HOOKS_HPP
